@@ -94,6 +94,15 @@ def generate(rng, tier):
     late = {k for k, v in tree.items() if v.get("late")}
     env["tree"] = {k: {kk: vv for kk, vv in v.items() if kk != "late"} for k, v in tree.items() if k not in late}
     if rng.random() < 0.08:
+        # a path changes its type between two generations: an empty placeholder folder is replaced by a file of that name
+        nm = rng.choice(["report", "sub_placeholder", "Z out"])
+        if nm not in tree:
+            fm_ = gen.fmt_args(gen.pick_formats(rng, 1, 2))
+            ops += [{"op": "mkdir", "path": nm, "fault": "add_dir"}, scen.cmd("create", "@R", *fm_), scen.gen_advance(rng),
+                    {"op": "rmdir", "path": nm, "fault": "remove_empty_dir"},
+                    {"op": "write", "path": nm, "c": gen.unique_content(rng), "fault": "file_replaces_directory"},
+                    scen.cmd("create", "@R", *fm_, *(["-h", "c4"] if rng.random() < 0.3 else [])), scen.gen_advance(rng)]
+    if rng.random() < 0.08:
         # the last create was killed after its manifest was moved into place and before the chain was rewritten: the
         # folder holds a complete manifest that the chain does not list, and flatten is the first command to see it
         ops.append(dict(scen.cmd("create", "@R", *gen.fmt_args(gen.pick_formats(rng, 1, 2))),
